@@ -137,13 +137,16 @@ CLAIMED = {
         technique="Coq proof (invariant of the per-direction reassembly machine, serial-number arithmetic with lia) + exhaustive cut-set / duplicate / displacement sweeps",
         design="3 C05"),
     "C08": dict(
-        text="Proof (TLS over TCP; QUIC by sweep only): Coq theorem C08_tls -- for every crypto instance, capture, key log and option set: cut the capture after any item "
-             "(no decryption-secrets block after the cut); every session of the cut run is the same-position session of the full run and the segments it exports, hence "
-             "each direction's byte stream, are a prefix of what the full run exports for it; decryptable or not. By C08_session_fold / C08_builder_fold (left folds that "
-             "only append). Closed under the global context. The check sweeps every cut position of reference captures on the implementation.",
-        note="Trusted: Coq kernel; models of main.run (TCP part), Session, OutputBuilder tied by byte-exact output correspondence; key log by file or by blocks inside the cut part.",
-        technique="Coq proof (prefix-monotonicity of a chain of left folds) + exhaustive cut sweep on the implementation",
-        design="3 C08"),
+        text="Proof: Coq theorems C08_tls -- for every crypto instance, capture, key log and option set: cut the capture after any item (no decryption-secrets block after the "
+             "cut); every session of the cut run is the same-position session of the full run and the segments it exports, hence each direction's byte stream, are a prefix of "
+             "what the full run exports for it; decryptable or not (via C08_session_fold / C08_builder_fold, left folds that only append) -- and C08_quic_session_appends: "
+             "whatever a datagram does to a QUIC session, the frames it has collected for the export stay in place and new ones are only added behind them (the datagrams "
+             "built from them follow by C02_one_output_per_input_datagram when capture times differ). Closed under the global context. The check sweeps every cut position "
+             "of TLS captures (plain and with duplicates, coalesced/partial retransmissions, late segments) and of QUIC captures, alone and interleaved.",
+        note="Trusted: Coq kernel; models of main.run, Session, OutputBuilder, QuicSession tied by byte-exact output correspondence; key log by file or by blocks inside the cut part; "
+             "QUIC list-of-sessions level (a new session is appended, existing ones keep their position) is read off the model's dispatch, exercised by the sweep.",
+        technique="Coq proof (prefix-monotonicity of a chain of left folds; append-only invariant of the QUIC output buffer) + exhaustive cut sweep on the implementation",
+        design="I.4 C08"),
 }
 
 NOT_YET = "not claimed yet in this revision: model and theorems under construction (see DESIGN.md section 7)"
